@@ -64,6 +64,11 @@ func (o *Oracle) checkLease(inc *Inc) {
 		if c < ls.leaderSince[n.idx] {
 			c = ls.leaderSince[n.idx]
 		}
+		// a change of the configuration (a server becoming a voter) restarts the clock: the
+		// leader can only be expected to notice from then on
+		if c < inc.cfgChangedAt {
+			c = inc.cfgChangedAt
+		}
 		times = append(times, c)
 	}
 	sort.Slice(times, func(i, j int) bool { return times[i] > times[j] })
